@@ -1,30 +1,46 @@
 (* C14 — cross-thread wake-up, hand-over and exit of the event loop.
-   Executable model of muggle_evloop_run / the back-ends' handle_wakeup / muggle_evloop_exit /
-   muggle_evloop_wakeup (event_loop.c, event_loop_{select,poll,epoll}.c, event_signal.c) and of
-   muggle_socket_evloop_add_ctx / _on_wake / _on_clear / _on_exit (socket_evloop_handle.c), at
-   the granularity of harness/vsched + vs_io.c: every poll/select/epoll_wait attempt, every
-   eventfd read/write, every mutex operation, every ref-count CAS and every harness "plain op"
-   is one step (label LEv); every plain segment between two of them is one step (LPlain).
+   Executable model of muggle_evloop_run / the back-ends' run loops and handle_wakeup /
+   muggle_evloop_exit / muggle_evloop_wakeup (event_loop.c, event_loop_{select,poll,epoll}.c,
+   event_signal.c) and of muggle_socket_evloop_add_ctx / _on_wake / _on_read / _on_close /
+   _on_timer / _on_clear / _on_exit (socket_evloop_handle.c), at the granularity of
+   harness/vsched + vs_io.c: every poll/select/epoll_wait attempt, every eventfd read/write, every
+   mutex operation, every ref-count CAS and every harness "plain op" is one step (label LEv);
+   every plain segment between two of them is one step (LPlain).
 
    Threads: T0 creates the loop (evloop->tid = T0 until run() overwrites it); thread
-   [c_loop] runs it; every thread first executes its script (wake-up / hand-over / exit).
+   [c_loop] runs it; every thread first executes its script (wake-up / hand-over / exit /
+   shutdown of a registered context / data from or close by the peer of a registered context).
+   The user's wake callback and timer callback execute scripts of the same operations on the loop
+   thread, inside the loop.
 
    Kernel, modelled (checked against the real kernel by trace acceptance, not verified):
    eventfd counter [cnt]: write adds 1, read returns it and resets it to 0; readable iff > 0.
-   select/poll are level-triggered.  epoll registers the signal with EPOLLIN|EPOLLET: the
-   descriptor is reported iff it is on the ready list ([edge]: set by EPOLL_CTL_ADD when
-   readable and by every write; cleared when reported) and still readable.
+   select/poll are level-triggered.  epoll registers every descriptor with EPOLLIN|EPOLLET: the
+   signal is reported iff it is on the ready list ([edge]: set by EPOLL_CTL_ADD when readable and
+   by every write; cleared when reported) and still readable.  A registered socket is readable
+   while it has unread input ([inp]), after its peer has closed ([peof]: end of file) and after its
+   own end has been shut down ([hup]: muggle_socket_ctx_shutdown = flag CLOSED +
+   shutdown(SHUT_RDWR)); in the last two cases it is also hung up.  select/poll report it at every
+   call while that lasts, epoll reports it once per event ([erl]: the contexts on epoll's ready
+   list, in the order in which they were put there).  The position of the signal among the events
+   of one epoll_wait batch is the step's choice parameter (every position is covered by the
+   theorems; the model driver reads it off the trace).
 
-   Plain shared ints ([to_exit], [tid]) are modelled sequentially consistent; in the C code they
-   are ordinary fields accessed from several threads without synchronisation (flagged in the
-   evidence: formally a data race; the serialised run cannot exhibit tearing or reordering).
+   Plain shared ints ([to_exit], [tid], the flags of a context) are modelled sequentially
+   consistent; in the C code they are ordinary fields accessed from several threads without
+   synchronisation (flagged in the evidence: formally a data race; the serialised run cannot
+   exhibit tearing or reordering).
 
    [c_fix_exit] / [c_fix_add] select the code as first found (false) or with
    fixes/C14-exit-before-run.patch / fixes/C14-add-ctx-failure.patch applied (true). *)
 From MV Require Export Lib.Conc.
 
 Inductive backend := BSelect | BPoll | BEpoll.
-Inductive sop := OpW | OpH | OpX.
+(* script operations: wake-up; hand-over; exit; shutdown of the first registered context that has
+   not been flagged CLOSED (muggle_socket_ctx_shutdown); the peer of the first registered context
+   that is not flagged and whose peer is still open sends data / closes.  Nothing happens when
+   there is no such context. *)
+Inductive sop := OpW | OpH | OpX | OpS | OpD | OpC.
 
 Record config := {
   c_be : backend;
@@ -37,11 +53,10 @@ Record config := {
   (* loop configuration: which optional callbacks are installed.  [c_bare] = a bare
      muggle_event_loop_t (no socket_evloop_handle attached): the flags are the loop's own
      cb_wake / cb_read / cb_close / cb_clear / cb_exit / cb_timer and [c_nctx] contexts are
-     registered by the creating thread before anything else runs.  Otherwise the handle is
-     attached (all loop-level callbacks are the handle's internal functions) and the flags are the
-     handle's user callbacks cb_wake / cb_add_ctx / cb_release / cb_msg (read) / cb_close /
-     cb_timer.  Peers are silent and no timeout is set, so read / close / timer callbacks are
-     never invoked whatever their flag; the WAKE -> EXIT promotion, the exit test and every
+     registered by the creating thread before anything else runs (their peers stay silent).
+     Otherwise the handle is attached (all loop-level callbacks are the handle's internal
+     functions) and the flags are the handle's user callbacks cb_wake / cb_add_ctx / cb_release /
+     cb_msg (read) / cb_close / cb_timer.  The WAKE -> EXIT promotion, the exit test and every
      release must not depend on any flag. *)
   c_bare : bool;
   c_nctx : nat;
@@ -53,20 +68,49 @@ Record config := {
   c_cb_clear : bool;
   c_cb_exit : bool;
   c_cb_timer : bool;
+  (* what the user's callbacks do (handle attached, callback installed): the j-th invocation of
+     the wake callback executes the script [nth j c_cbw []], the j-th invocation of the timer
+     callback [nth j c_cbt []] - on the loop thread, inside the back-end's pass *)
+  c_cbw : list (list sop);
+  c_cbt : list (list sop);
+  (* timer interval 0: poll/select/epoll_wait do not block and every iteration, whether or not
+     anything was ready, ends with the timer callback and the exit test; otherwise -1 (no timer) *)
+  c_tmo : bool;
+  (* the owner deletes the loop (muggle_evloop_delete) as soon as muggle_evloop_run has returned,
+     without waiting for the other threads *)
+  c_del : bool;
 }.
 
 (* the configuration of the first rounds of checking: handle attached, every callback installed *)
 Definition mk_cfg (be : backend) (n lp cap : nat) (scr : nat -> list sop) (fx fa : bool) : config :=
   {| c_be := be; c_n := n; c_loop := lp; c_cap := cap; c_scr := scr; c_fix_exit := fx; c_fix_add := fa;
      c_bare := false; c_nctx := 0; c_cb_wake := true; c_cb_add := true; c_cb_release := true;
-     c_cb_read := true; c_cb_close := true; c_cb_clear := true; c_cb_exit := true; c_cb_timer := true |}.
+     c_cb_read := true; c_cb_close := true; c_cb_clear := true; c_cb_exit := true; c_cb_timer := true;
+     c_cbw := []; c_cbt := []; c_tmo := false; c_del := false |}.
+(* the same (both repairs) with callback scripts, a zero timer interval, immediate deletion *)
+Definition mk_cfg_cb (be : backend) (n lp cap : nat) (scr : nat -> list sop) (cbw cbt : list (list sop))
+  (tmo del : bool) : config :=
+  {| c_be := be; c_n := n; c_loop := lp; c_cap := cap; c_scr := scr; c_fix_exit := true; c_fix_add := true;
+     c_bare := false; c_nctx := 0; c_cb_wake := true; c_cb_add := true; c_cb_release := true;
+     c_cb_read := true; c_cb_close := true; c_cb_clear := true; c_cb_exit := true; c_cb_timer := true;
+     c_cbw := cbw; c_cbt := cbt; c_tmo := tmo; c_del := del |}.
 (* a bare loop with the given wake / clear / exit callbacks (read, close, timer not installed) *)
 Definition mk_bare (be : backend) (n lp cap : nat) (scr : nat -> list sop) (nctx : nat) (w cl ex : bool) : config :=
   {| c_be := be; c_n := n; c_loop := lp; c_cap := cap; c_scr := scr; c_fix_exit := true; c_fix_add := true;
      c_bare := true; c_nctx := nctx; c_cb_wake := w; c_cb_add := false; c_cb_release := false;
-     c_cb_read := false; c_cb_close := false; c_cb_clear := cl; c_cb_exit := ex; c_cb_timer := false |}.
+     c_cb_read := false; c_cb_close := false; c_cb_clear := cl; c_cb_exit := ex; c_cb_timer := false;
+     c_cbw := []; c_cbt := []; c_tmo := false; c_del := false |}.
 
-Inductive phase := PhDrain | PhClear | PhExit.
+(* who releases a context: the wake callback (registration failed), the back-end's dispatch of a
+   context flagged CLOSED (on_close), the clear pass of muggle_evloop_run, the exit callback *)
+Inductive phase := PhDrain | PhClear | PhExit | PhClose.
+
+(* program points of a callback script (the same operations as a thread script, on the loop
+   thread): harness "plain op" before operation k, its first plain segment, the signal write and
+   what follows, the four points of muggle_socket_evloop_add_ctx *)
+Inductive spc :=
+  | QY (k : nat) | QO (k : nat) | QW (k : nat) | QT (k : nat)
+  | QHL (k id : nat) | QHE (k id : nat) | QHU (k : nat) | QHW (k : nat).
 
 (* program points: A* = at an operation (label LEv), S* = in the plain segment before the next
    operation (label LPlain) *)
@@ -81,21 +125,33 @@ Inductive pc :=
   | AHUnlock (k : nat)           (*   unlock *)
   | SHW (k : nat)                (*   then muggle_evloop_wakeup *)
   | APoll                        (* select / poll / epoll_wait (one attempt) *)
-  | SRepoll                      (* nothing ready: waiting for I/O *)
-  | SPollRet                     (* returned with the signal ready: handle_wakeup *)
+  | SRepoll                      (* nothing ready: waiting for I/O (timer interval 0: timer, exit test) *)
+  | SPollRet                     (* returned with something ready: the back-end's pass over the events *)
   | ARead                        (* muggle_ev_signal_clearup: read(evfd) *)
   | SWake                        (* cb_wake = muggle_socket_evloop_on_wake starts *)
   | AWLock                       (* on_wake: lock *)
-  | SRel (ph : phase) (pend : option nat)  (* drain of the queue / clear of ctx_list / on_exit drain *)
+  | SRel (ph : phase) (pend : option nat)  (* drain of the queue / close dispatch / clear of ctx_list / on_exit drain *)
   | ARel (ph : phase) (id : nat) (* muggle_socket_evloop_release_ctx: ref-count CAS 1 -> 0 *)
   | AWUnlock                     (* on_wake: unlock *)
-  | SWakeEnd                     (* handle cb_wake; WAKE -> EXIT; exit test *)
+  | SWakeEnd                     (* handle cb_wake; WAKE -> EXIT; rest of the pass; timer; exit test *)
+  | Cb (q : spc)                 (* inside the user's wake / timer callback *)
   | AXLock                       (* on_exit: lock *)
   | AXUnlock
   | SRet                         (* muggle_evloop_run returns *)
   | AFin
   | Done.
 
+(* [reg] = evloop->ctx_list (registered and not yet removed by a close dispatch), [hup] = its
+   contexts whose flags have MUGGLE_EV_CTX_FLAG_CLOSED (in the order in which the flag was set),
+   [inp] / [peof] = those with unread input / whose peer has closed, [erl] = those on epoll's
+   ready list, [slots] = the poll back-end's fds[1..] / nodes[1..]; per pass of the back-end over
+   the result of one poll call: [rdy] = the contexts reported, [rdh] = those of them reported as
+   hung up, [psig] = the signal reported and handle_wakeup not reached yet, [pn] = the poll
+   back-end's counter n (it is only compared with 0 after decrements: truncated subtraction),
+   [todo] = what the pass still has to visit (None = the signal: handle_wakeup); [wkn] / [tmn] =
+   invocations of the user's wake / timer callback, [cbs] = the script of the invocation in
+   progress, [cbk] = it is the timer callback; [lfreed] = the loop has been deleted, [g_uaf] =
+   library calls on the loop made after that *)
 Record sys := {
   cnt : nat;
   edge : bool;
@@ -117,51 +173,102 @@ Record sys := {
   w_req : nat;
   w_seen : nat;
   returned : bool;
+  hup : list nat;
+  erl : list nat;
+  slots : list nat;
+  rdy : list nat;
+  todo : list (option nat);
+  psig : bool;
+  pn : nat;
+  wkn : nat;
+  g_relclose : list nat;
+  inp : list nat;
+  peof : list nat;
+  rdh : list nat;
+  tmn : nat;
+  cbk : bool;
+  cbs : list sop;
+  lfreed : bool;
+  g_uaf : nat;
   thr : nat -> pc;
 }.
 
 Definition set_cnt (s : sys) (v : nat) : sys :=
-  {| cnt := v; edge := edge s; to_exit := to_exit s; tidf := tidf s; created := created s; mtx := mtx s; queue := queue s; next_id := next_id s; reg := reg s; clr := clr s; exitdr := exitdr s; g_enq := g_enq s; g_relfail := g_relfail s; g_relexit := g_relexit s; g_relclear := g_relclear s; g_leaked := g_leaked s; g_late := g_late s; w_req := w_req s; w_seen := w_seen s; returned := returned s; thr := thr s |}.
+  {| cnt := v; edge := edge s; to_exit := to_exit s; tidf := tidf s; created := created s; mtx := mtx s; queue := queue s; next_id := next_id s; reg := reg s; clr := clr s; exitdr := exitdr s; g_enq := g_enq s; g_relfail := g_relfail s; g_relexit := g_relexit s; g_relclear := g_relclear s; g_leaked := g_leaked s; g_late := g_late s; w_req := w_req s; w_seen := w_seen s; returned := returned s; hup := hup s; erl := erl s; slots := slots s; rdy := rdy s; todo := todo s; psig := psig s; pn := pn s; wkn := wkn s; g_relclose := g_relclose s; inp := inp s; peof := peof s; rdh := rdh s; tmn := tmn s; cbk := cbk s; cbs := cbs s; lfreed := lfreed s; g_uaf := g_uaf s; thr := thr s |}.
 Definition set_edge (s : sys) (v : bool) : sys :=
-  {| cnt := cnt s; edge := v; to_exit := to_exit s; tidf := tidf s; created := created s; mtx := mtx s; queue := queue s; next_id := next_id s; reg := reg s; clr := clr s; exitdr := exitdr s; g_enq := g_enq s; g_relfail := g_relfail s; g_relexit := g_relexit s; g_relclear := g_relclear s; g_leaked := g_leaked s; g_late := g_late s; w_req := w_req s; w_seen := w_seen s; returned := returned s; thr := thr s |}.
+  {| cnt := cnt s; edge := v; to_exit := to_exit s; tidf := tidf s; created := created s; mtx := mtx s; queue := queue s; next_id := next_id s; reg := reg s; clr := clr s; exitdr := exitdr s; g_enq := g_enq s; g_relfail := g_relfail s; g_relexit := g_relexit s; g_relclear := g_relclear s; g_leaked := g_leaked s; g_late := g_late s; w_req := w_req s; w_seen := w_seen s; returned := returned s; hup := hup s; erl := erl s; slots := slots s; rdy := rdy s; todo := todo s; psig := psig s; pn := pn s; wkn := wkn s; g_relclose := g_relclose s; inp := inp s; peof := peof s; rdh := rdh s; tmn := tmn s; cbk := cbk s; cbs := cbs s; lfreed := lfreed s; g_uaf := g_uaf s; thr := thr s |}.
 Definition set_to_exit (s : sys) (v : nat) : sys :=
-  {| cnt := cnt s; edge := edge s; to_exit := v; tidf := tidf s; created := created s; mtx := mtx s; queue := queue s; next_id := next_id s; reg := reg s; clr := clr s; exitdr := exitdr s; g_enq := g_enq s; g_relfail := g_relfail s; g_relexit := g_relexit s; g_relclear := g_relclear s; g_leaked := g_leaked s; g_late := g_late s; w_req := w_req s; w_seen := w_seen s; returned := returned s; thr := thr s |}.
+  {| cnt := cnt s; edge := edge s; to_exit := v; tidf := tidf s; created := created s; mtx := mtx s; queue := queue s; next_id := next_id s; reg := reg s; clr := clr s; exitdr := exitdr s; g_enq := g_enq s; g_relfail := g_relfail s; g_relexit := g_relexit s; g_relclear := g_relclear s; g_leaked := g_leaked s; g_late := g_late s; w_req := w_req s; w_seen := w_seen s; returned := returned s; hup := hup s; erl := erl s; slots := slots s; rdy := rdy s; todo := todo s; psig := psig s; pn := pn s; wkn := wkn s; g_relclose := g_relclose s; inp := inp s; peof := peof s; rdh := rdh s; tmn := tmn s; cbk := cbk s; cbs := cbs s; lfreed := lfreed s; g_uaf := g_uaf s; thr := thr s |}.
 Definition set_tidf (s : sys) (v : nat) : sys :=
-  {| cnt := cnt s; edge := edge s; to_exit := to_exit s; tidf := v; created := created s; mtx := mtx s; queue := queue s; next_id := next_id s; reg := reg s; clr := clr s; exitdr := exitdr s; g_enq := g_enq s; g_relfail := g_relfail s; g_relexit := g_relexit s; g_relclear := g_relclear s; g_leaked := g_leaked s; g_late := g_late s; w_req := w_req s; w_seen := w_seen s; returned := returned s; thr := thr s |}.
+  {| cnt := cnt s; edge := edge s; to_exit := to_exit s; tidf := v; created := created s; mtx := mtx s; queue := queue s; next_id := next_id s; reg := reg s; clr := clr s; exitdr := exitdr s; g_enq := g_enq s; g_relfail := g_relfail s; g_relexit := g_relexit s; g_relclear := g_relclear s; g_leaked := g_leaked s; g_late := g_late s; w_req := w_req s; w_seen := w_seen s; returned := returned s; hup := hup s; erl := erl s; slots := slots s; rdy := rdy s; todo := todo s; psig := psig s; pn := pn s; wkn := wkn s; g_relclose := g_relclose s; inp := inp s; peof := peof s; rdh := rdh s; tmn := tmn s; cbk := cbk s; cbs := cbs s; lfreed := lfreed s; g_uaf := g_uaf s; thr := thr s |}.
 Definition set_created (s : sys) (v : bool) : sys :=
-  {| cnt := cnt s; edge := edge s; to_exit := to_exit s; tidf := tidf s; created := v; mtx := mtx s; queue := queue s; next_id := next_id s; reg := reg s; clr := clr s; exitdr := exitdr s; g_enq := g_enq s; g_relfail := g_relfail s; g_relexit := g_relexit s; g_relclear := g_relclear s; g_leaked := g_leaked s; g_late := g_late s; w_req := w_req s; w_seen := w_seen s; returned := returned s; thr := thr s |}.
+  {| cnt := cnt s; edge := edge s; to_exit := to_exit s; tidf := tidf s; created := v; mtx := mtx s; queue := queue s; next_id := next_id s; reg := reg s; clr := clr s; exitdr := exitdr s; g_enq := g_enq s; g_relfail := g_relfail s; g_relexit := g_relexit s; g_relclear := g_relclear s; g_leaked := g_leaked s; g_late := g_late s; w_req := w_req s; w_seen := w_seen s; returned := returned s; hup := hup s; erl := erl s; slots := slots s; rdy := rdy s; todo := todo s; psig := psig s; pn := pn s; wkn := wkn s; g_relclose := g_relclose s; inp := inp s; peof := peof s; rdh := rdh s; tmn := tmn s; cbk := cbk s; cbs := cbs s; lfreed := lfreed s; g_uaf := g_uaf s; thr := thr s |}.
 Definition set_mtx (s : sys) (v : option nat) : sys :=
-  {| cnt := cnt s; edge := edge s; to_exit := to_exit s; tidf := tidf s; created := created s; mtx := v; queue := queue s; next_id := next_id s; reg := reg s; clr := clr s; exitdr := exitdr s; g_enq := g_enq s; g_relfail := g_relfail s; g_relexit := g_relexit s; g_relclear := g_relclear s; g_leaked := g_leaked s; g_late := g_late s; w_req := w_req s; w_seen := w_seen s; returned := returned s; thr := thr s |}.
+  {| cnt := cnt s; edge := edge s; to_exit := to_exit s; tidf := tidf s; created := created s; mtx := v; queue := queue s; next_id := next_id s; reg := reg s; clr := clr s; exitdr := exitdr s; g_enq := g_enq s; g_relfail := g_relfail s; g_relexit := g_relexit s; g_relclear := g_relclear s; g_leaked := g_leaked s; g_late := g_late s; w_req := w_req s; w_seen := w_seen s; returned := returned s; hup := hup s; erl := erl s; slots := slots s; rdy := rdy s; todo := todo s; psig := psig s; pn := pn s; wkn := wkn s; g_relclose := g_relclose s; inp := inp s; peof := peof s; rdh := rdh s; tmn := tmn s; cbk := cbk s; cbs := cbs s; lfreed := lfreed s; g_uaf := g_uaf s; thr := thr s |}.
 Definition set_queue (s : sys) (v : list nat) : sys :=
-  {| cnt := cnt s; edge := edge s; to_exit := to_exit s; tidf := tidf s; created := created s; mtx := mtx s; queue := v; next_id := next_id s; reg := reg s; clr := clr s; exitdr := exitdr s; g_enq := g_enq s; g_relfail := g_relfail s; g_relexit := g_relexit s; g_relclear := g_relclear s; g_leaked := g_leaked s; g_late := g_late s; w_req := w_req s; w_seen := w_seen s; returned := returned s; thr := thr s |}.
+  {| cnt := cnt s; edge := edge s; to_exit := to_exit s; tidf := tidf s; created := created s; mtx := mtx s; queue := v; next_id := next_id s; reg := reg s; clr := clr s; exitdr := exitdr s; g_enq := g_enq s; g_relfail := g_relfail s; g_relexit := g_relexit s; g_relclear := g_relclear s; g_leaked := g_leaked s; g_late := g_late s; w_req := w_req s; w_seen := w_seen s; returned := returned s; hup := hup s; erl := erl s; slots := slots s; rdy := rdy s; todo := todo s; psig := psig s; pn := pn s; wkn := wkn s; g_relclose := g_relclose s; inp := inp s; peof := peof s; rdh := rdh s; tmn := tmn s; cbk := cbk s; cbs := cbs s; lfreed := lfreed s; g_uaf := g_uaf s; thr := thr s |}.
 Definition set_next_id (s : sys) (v : nat) : sys :=
-  {| cnt := cnt s; edge := edge s; to_exit := to_exit s; tidf := tidf s; created := created s; mtx := mtx s; queue := queue s; next_id := v; reg := reg s; clr := clr s; exitdr := exitdr s; g_enq := g_enq s; g_relfail := g_relfail s; g_relexit := g_relexit s; g_relclear := g_relclear s; g_leaked := g_leaked s; g_late := g_late s; w_req := w_req s; w_seen := w_seen s; returned := returned s; thr := thr s |}.
+  {| cnt := cnt s; edge := edge s; to_exit := to_exit s; tidf := tidf s; created := created s; mtx := mtx s; queue := queue s; next_id := v; reg := reg s; clr := clr s; exitdr := exitdr s; g_enq := g_enq s; g_relfail := g_relfail s; g_relexit := g_relexit s; g_relclear := g_relclear s; g_leaked := g_leaked s; g_late := g_late s; w_req := w_req s; w_seen := w_seen s; returned := returned s; hup := hup s; erl := erl s; slots := slots s; rdy := rdy s; todo := todo s; psig := psig s; pn := pn s; wkn := wkn s; g_relclose := g_relclose s; inp := inp s; peof := peof s; rdh := rdh s; tmn := tmn s; cbk := cbk s; cbs := cbs s; lfreed := lfreed s; g_uaf := g_uaf s; thr := thr s |}.
 Definition set_reg (s : sys) (v : list nat) : sys :=
-  {| cnt := cnt s; edge := edge s; to_exit := to_exit s; tidf := tidf s; created := created s; mtx := mtx s; queue := queue s; next_id := next_id s; reg := v; clr := clr s; exitdr := exitdr s; g_enq := g_enq s; g_relfail := g_relfail s; g_relexit := g_relexit s; g_relclear := g_relclear s; g_leaked := g_leaked s; g_late := g_late s; w_req := w_req s; w_seen := w_seen s; returned := returned s; thr := thr s |}.
+  {| cnt := cnt s; edge := edge s; to_exit := to_exit s; tidf := tidf s; created := created s; mtx := mtx s; queue := queue s; next_id := next_id s; reg := v; clr := clr s; exitdr := exitdr s; g_enq := g_enq s; g_relfail := g_relfail s; g_relexit := g_relexit s; g_relclear := g_relclear s; g_leaked := g_leaked s; g_late := g_late s; w_req := w_req s; w_seen := w_seen s; returned := returned s; hup := hup s; erl := erl s; slots := slots s; rdy := rdy s; todo := todo s; psig := psig s; pn := pn s; wkn := wkn s; g_relclose := g_relclose s; inp := inp s; peof := peof s; rdh := rdh s; tmn := tmn s; cbk := cbk s; cbs := cbs s; lfreed := lfreed s; g_uaf := g_uaf s; thr := thr s |}.
 Definition set_clr (s : sys) (v : list nat) : sys :=
-  {| cnt := cnt s; edge := edge s; to_exit := to_exit s; tidf := tidf s; created := created s; mtx := mtx s; queue := queue s; next_id := next_id s; reg := reg s; clr := v; exitdr := exitdr s; g_enq := g_enq s; g_relfail := g_relfail s; g_relexit := g_relexit s; g_relclear := g_relclear s; g_leaked := g_leaked s; g_late := g_late s; w_req := w_req s; w_seen := w_seen s; returned := returned s; thr := thr s |}.
+  {| cnt := cnt s; edge := edge s; to_exit := to_exit s; tidf := tidf s; created := created s; mtx := mtx s; queue := queue s; next_id := next_id s; reg := reg s; clr := v; exitdr := exitdr s; g_enq := g_enq s; g_relfail := g_relfail s; g_relexit := g_relexit s; g_relclear := g_relclear s; g_leaked := g_leaked s; g_late := g_late s; w_req := w_req s; w_seen := w_seen s; returned := returned s; hup := hup s; erl := erl s; slots := slots s; rdy := rdy s; todo := todo s; psig := psig s; pn := pn s; wkn := wkn s; g_relclose := g_relclose s; inp := inp s; peof := peof s; rdh := rdh s; tmn := tmn s; cbk := cbk s; cbs := cbs s; lfreed := lfreed s; g_uaf := g_uaf s; thr := thr s |}.
 Definition set_exitdr (s : sys) (v : bool) : sys :=
-  {| cnt := cnt s; edge := edge s; to_exit := to_exit s; tidf := tidf s; created := created s; mtx := mtx s; queue := queue s; next_id := next_id s; reg := reg s; clr := clr s; exitdr := v; g_enq := g_enq s; g_relfail := g_relfail s; g_relexit := g_relexit s; g_relclear := g_relclear s; g_leaked := g_leaked s; g_late := g_late s; w_req := w_req s; w_seen := w_seen s; returned := returned s; thr := thr s |}.
+  {| cnt := cnt s; edge := edge s; to_exit := to_exit s; tidf := tidf s; created := created s; mtx := mtx s; queue := queue s; next_id := next_id s; reg := reg s; clr := clr s; exitdr := v; g_enq := g_enq s; g_relfail := g_relfail s; g_relexit := g_relexit s; g_relclear := g_relclear s; g_leaked := g_leaked s; g_late := g_late s; w_req := w_req s; w_seen := w_seen s; returned := returned s; hup := hup s; erl := erl s; slots := slots s; rdy := rdy s; todo := todo s; psig := psig s; pn := pn s; wkn := wkn s; g_relclose := g_relclose s; inp := inp s; peof := peof s; rdh := rdh s; tmn := tmn s; cbk := cbk s; cbs := cbs s; lfreed := lfreed s; g_uaf := g_uaf s; thr := thr s |}.
 Definition set_g_enq (s : sys) (v : list nat) : sys :=
-  {| cnt := cnt s; edge := edge s; to_exit := to_exit s; tidf := tidf s; created := created s; mtx := mtx s; queue := queue s; next_id := next_id s; reg := reg s; clr := clr s; exitdr := exitdr s; g_enq := v; g_relfail := g_relfail s; g_relexit := g_relexit s; g_relclear := g_relclear s; g_leaked := g_leaked s; g_late := g_late s; w_req := w_req s; w_seen := w_seen s; returned := returned s; thr := thr s |}.
+  {| cnt := cnt s; edge := edge s; to_exit := to_exit s; tidf := tidf s; created := created s; mtx := mtx s; queue := queue s; next_id := next_id s; reg := reg s; clr := clr s; exitdr := exitdr s; g_enq := v; g_relfail := g_relfail s; g_relexit := g_relexit s; g_relclear := g_relclear s; g_leaked := g_leaked s; g_late := g_late s; w_req := w_req s; w_seen := w_seen s; returned := returned s; hup := hup s; erl := erl s; slots := slots s; rdy := rdy s; todo := todo s; psig := psig s; pn := pn s; wkn := wkn s; g_relclose := g_relclose s; inp := inp s; peof := peof s; rdh := rdh s; tmn := tmn s; cbk := cbk s; cbs := cbs s; lfreed := lfreed s; g_uaf := g_uaf s; thr := thr s |}.
 Definition set_g_relfail (s : sys) (v : list nat) : sys :=
-  {| cnt := cnt s; edge := edge s; to_exit := to_exit s; tidf := tidf s; created := created s; mtx := mtx s; queue := queue s; next_id := next_id s; reg := reg s; clr := clr s; exitdr := exitdr s; g_enq := g_enq s; g_relfail := v; g_relexit := g_relexit s; g_relclear := g_relclear s; g_leaked := g_leaked s; g_late := g_late s; w_req := w_req s; w_seen := w_seen s; returned := returned s; thr := thr s |}.
+  {| cnt := cnt s; edge := edge s; to_exit := to_exit s; tidf := tidf s; created := created s; mtx := mtx s; queue := queue s; next_id := next_id s; reg := reg s; clr := clr s; exitdr := exitdr s; g_enq := g_enq s; g_relfail := v; g_relexit := g_relexit s; g_relclear := g_relclear s; g_leaked := g_leaked s; g_late := g_late s; w_req := w_req s; w_seen := w_seen s; returned := returned s; hup := hup s; erl := erl s; slots := slots s; rdy := rdy s; todo := todo s; psig := psig s; pn := pn s; wkn := wkn s; g_relclose := g_relclose s; inp := inp s; peof := peof s; rdh := rdh s; tmn := tmn s; cbk := cbk s; cbs := cbs s; lfreed := lfreed s; g_uaf := g_uaf s; thr := thr s |}.
 Definition set_g_relexit (s : sys) (v : list nat) : sys :=
-  {| cnt := cnt s; edge := edge s; to_exit := to_exit s; tidf := tidf s; created := created s; mtx := mtx s; queue := queue s; next_id := next_id s; reg := reg s; clr := clr s; exitdr := exitdr s; g_enq := g_enq s; g_relfail := g_relfail s; g_relexit := v; g_relclear := g_relclear s; g_leaked := g_leaked s; g_late := g_late s; w_req := w_req s; w_seen := w_seen s; returned := returned s; thr := thr s |}.
+  {| cnt := cnt s; edge := edge s; to_exit := to_exit s; tidf := tidf s; created := created s; mtx := mtx s; queue := queue s; next_id := next_id s; reg := reg s; clr := clr s; exitdr := exitdr s; g_enq := g_enq s; g_relfail := g_relfail s; g_relexit := v; g_relclear := g_relclear s; g_leaked := g_leaked s; g_late := g_late s; w_req := w_req s; w_seen := w_seen s; returned := returned s; hup := hup s; erl := erl s; slots := slots s; rdy := rdy s; todo := todo s; psig := psig s; pn := pn s; wkn := wkn s; g_relclose := g_relclose s; inp := inp s; peof := peof s; rdh := rdh s; tmn := tmn s; cbk := cbk s; cbs := cbs s; lfreed := lfreed s; g_uaf := g_uaf s; thr := thr s |}.
 Definition set_g_relclear (s : sys) (v : list nat) : sys :=
-  {| cnt := cnt s; edge := edge s; to_exit := to_exit s; tidf := tidf s; created := created s; mtx := mtx s; queue := queue s; next_id := next_id s; reg := reg s; clr := clr s; exitdr := exitdr s; g_enq := g_enq s; g_relfail := g_relfail s; g_relexit := g_relexit s; g_relclear := v; g_leaked := g_leaked s; g_late := g_late s; w_req := w_req s; w_seen := w_seen s; returned := returned s; thr := thr s |}.
+  {| cnt := cnt s; edge := edge s; to_exit := to_exit s; tidf := tidf s; created := created s; mtx := mtx s; queue := queue s; next_id := next_id s; reg := reg s; clr := clr s; exitdr := exitdr s; g_enq := g_enq s; g_relfail := g_relfail s; g_relexit := g_relexit s; g_relclear := v; g_leaked := g_leaked s; g_late := g_late s; w_req := w_req s; w_seen := w_seen s; returned := returned s; hup := hup s; erl := erl s; slots := slots s; rdy := rdy s; todo := todo s; psig := psig s; pn := pn s; wkn := wkn s; g_relclose := g_relclose s; inp := inp s; peof := peof s; rdh := rdh s; tmn := tmn s; cbk := cbk s; cbs := cbs s; lfreed := lfreed s; g_uaf := g_uaf s; thr := thr s |}.
 Definition set_g_leaked (s : sys) (v : list nat) : sys :=
-  {| cnt := cnt s; edge := edge s; to_exit := to_exit s; tidf := tidf s; created := created s; mtx := mtx s; queue := queue s; next_id := next_id s; reg := reg s; clr := clr s; exitdr := exitdr s; g_enq := g_enq s; g_relfail := g_relfail s; g_relexit := g_relexit s; g_relclear := g_relclear s; g_leaked := v; g_late := g_late s; w_req := w_req s; w_seen := w_seen s; returned := returned s; thr := thr s |}.
+  {| cnt := cnt s; edge := edge s; to_exit := to_exit s; tidf := tidf s; created := created s; mtx := mtx s; queue := queue s; next_id := next_id s; reg := reg s; clr := clr s; exitdr := exitdr s; g_enq := g_enq s; g_relfail := g_relfail s; g_relexit := g_relexit s; g_relclear := g_relclear s; g_leaked := v; g_late := g_late s; w_req := w_req s; w_seen := w_seen s; returned := returned s; hup := hup s; erl := erl s; slots := slots s; rdy := rdy s; todo := todo s; psig := psig s; pn := pn s; wkn := wkn s; g_relclose := g_relclose s; inp := inp s; peof := peof s; rdh := rdh s; tmn := tmn s; cbk := cbk s; cbs := cbs s; lfreed := lfreed s; g_uaf := g_uaf s; thr := thr s |}.
 Definition set_g_late (s : sys) (v : list nat) : sys :=
-  {| cnt := cnt s; edge := edge s; to_exit := to_exit s; tidf := tidf s; created := created s; mtx := mtx s; queue := queue s; next_id := next_id s; reg := reg s; clr := clr s; exitdr := exitdr s; g_enq := g_enq s; g_relfail := g_relfail s; g_relexit := g_relexit s; g_relclear := g_relclear s; g_leaked := g_leaked s; g_late := v; w_req := w_req s; w_seen := w_seen s; returned := returned s; thr := thr s |}.
+  {| cnt := cnt s; edge := edge s; to_exit := to_exit s; tidf := tidf s; created := created s; mtx := mtx s; queue := queue s; next_id := next_id s; reg := reg s; clr := clr s; exitdr := exitdr s; g_enq := g_enq s; g_relfail := g_relfail s; g_relexit := g_relexit s; g_relclear := g_relclear s; g_leaked := g_leaked s; g_late := v; w_req := w_req s; w_seen := w_seen s; returned := returned s; hup := hup s; erl := erl s; slots := slots s; rdy := rdy s; todo := todo s; psig := psig s; pn := pn s; wkn := wkn s; g_relclose := g_relclose s; inp := inp s; peof := peof s; rdh := rdh s; tmn := tmn s; cbk := cbk s; cbs := cbs s; lfreed := lfreed s; g_uaf := g_uaf s; thr := thr s |}.
 Definition set_w_req (s : sys) (v : nat) : sys :=
-  {| cnt := cnt s; edge := edge s; to_exit := to_exit s; tidf := tidf s; created := created s; mtx := mtx s; queue := queue s; next_id := next_id s; reg := reg s; clr := clr s; exitdr := exitdr s; g_enq := g_enq s; g_relfail := g_relfail s; g_relexit := g_relexit s; g_relclear := g_relclear s; g_leaked := g_leaked s; g_late := g_late s; w_req := v; w_seen := w_seen s; returned := returned s; thr := thr s |}.
+  {| cnt := cnt s; edge := edge s; to_exit := to_exit s; tidf := tidf s; created := created s; mtx := mtx s; queue := queue s; next_id := next_id s; reg := reg s; clr := clr s; exitdr := exitdr s; g_enq := g_enq s; g_relfail := g_relfail s; g_relexit := g_relexit s; g_relclear := g_relclear s; g_leaked := g_leaked s; g_late := g_late s; w_req := v; w_seen := w_seen s; returned := returned s; hup := hup s; erl := erl s; slots := slots s; rdy := rdy s; todo := todo s; psig := psig s; pn := pn s; wkn := wkn s; g_relclose := g_relclose s; inp := inp s; peof := peof s; rdh := rdh s; tmn := tmn s; cbk := cbk s; cbs := cbs s; lfreed := lfreed s; g_uaf := g_uaf s; thr := thr s |}.
 Definition set_w_seen (s : sys) (v : nat) : sys :=
-  {| cnt := cnt s; edge := edge s; to_exit := to_exit s; tidf := tidf s; created := created s; mtx := mtx s; queue := queue s; next_id := next_id s; reg := reg s; clr := clr s; exitdr := exitdr s; g_enq := g_enq s; g_relfail := g_relfail s; g_relexit := g_relexit s; g_relclear := g_relclear s; g_leaked := g_leaked s; g_late := g_late s; w_req := w_req s; w_seen := v; returned := returned s; thr := thr s |}.
+  {| cnt := cnt s; edge := edge s; to_exit := to_exit s; tidf := tidf s; created := created s; mtx := mtx s; queue := queue s; next_id := next_id s; reg := reg s; clr := clr s; exitdr := exitdr s; g_enq := g_enq s; g_relfail := g_relfail s; g_relexit := g_relexit s; g_relclear := g_relclear s; g_leaked := g_leaked s; g_late := g_late s; w_req := w_req s; w_seen := v; returned := returned s; hup := hup s; erl := erl s; slots := slots s; rdy := rdy s; todo := todo s; psig := psig s; pn := pn s; wkn := wkn s; g_relclose := g_relclose s; inp := inp s; peof := peof s; rdh := rdh s; tmn := tmn s; cbk := cbk s; cbs := cbs s; lfreed := lfreed s; g_uaf := g_uaf s; thr := thr s |}.
 Definition set_returned (s : sys) (v : bool) : sys :=
-  {| cnt := cnt s; edge := edge s; to_exit := to_exit s; tidf := tidf s; created := created s; mtx := mtx s; queue := queue s; next_id := next_id s; reg := reg s; clr := clr s; exitdr := exitdr s; g_enq := g_enq s; g_relfail := g_relfail s; g_relexit := g_relexit s; g_relclear := g_relclear s; g_leaked := g_leaked s; g_late := g_late s; w_req := w_req s; w_seen := w_seen s; returned := v; thr := thr s |}.
+  {| cnt := cnt s; edge := edge s; to_exit := to_exit s; tidf := tidf s; created := created s; mtx := mtx s; queue := queue s; next_id := next_id s; reg := reg s; clr := clr s; exitdr := exitdr s; g_enq := g_enq s; g_relfail := g_relfail s; g_relexit := g_relexit s; g_relclear := g_relclear s; g_leaked := g_leaked s; g_late := g_late s; w_req := w_req s; w_seen := w_seen s; returned := v; hup := hup s; erl := erl s; slots := slots s; rdy := rdy s; todo := todo s; psig := psig s; pn := pn s; wkn := wkn s; g_relclose := g_relclose s; inp := inp s; peof := peof s; rdh := rdh s; tmn := tmn s; cbk := cbk s; cbs := cbs s; lfreed := lfreed s; g_uaf := g_uaf s; thr := thr s |}.
+Definition set_hup (s : sys) (v : list nat) : sys :=
+  {| cnt := cnt s; edge := edge s; to_exit := to_exit s; tidf := tidf s; created := created s; mtx := mtx s; queue := queue s; next_id := next_id s; reg := reg s; clr := clr s; exitdr := exitdr s; g_enq := g_enq s; g_relfail := g_relfail s; g_relexit := g_relexit s; g_relclear := g_relclear s; g_leaked := g_leaked s; g_late := g_late s; w_req := w_req s; w_seen := w_seen s; returned := returned s; hup := v; erl := erl s; slots := slots s; rdy := rdy s; todo := todo s; psig := psig s; pn := pn s; wkn := wkn s; g_relclose := g_relclose s; inp := inp s; peof := peof s; rdh := rdh s; tmn := tmn s; cbk := cbk s; cbs := cbs s; lfreed := lfreed s; g_uaf := g_uaf s; thr := thr s |}.
+Definition set_erl (s : sys) (v : list nat) : sys :=
+  {| cnt := cnt s; edge := edge s; to_exit := to_exit s; tidf := tidf s; created := created s; mtx := mtx s; queue := queue s; next_id := next_id s; reg := reg s; clr := clr s; exitdr := exitdr s; g_enq := g_enq s; g_relfail := g_relfail s; g_relexit := g_relexit s; g_relclear := g_relclear s; g_leaked := g_leaked s; g_late := g_late s; w_req := w_req s; w_seen := w_seen s; returned := returned s; hup := hup s; erl := v; slots := slots s; rdy := rdy s; todo := todo s; psig := psig s; pn := pn s; wkn := wkn s; g_relclose := g_relclose s; inp := inp s; peof := peof s; rdh := rdh s; tmn := tmn s; cbk := cbk s; cbs := cbs s; lfreed := lfreed s; g_uaf := g_uaf s; thr := thr s |}.
+Definition set_slots (s : sys) (v : list nat) : sys :=
+  {| cnt := cnt s; edge := edge s; to_exit := to_exit s; tidf := tidf s; created := created s; mtx := mtx s; queue := queue s; next_id := next_id s; reg := reg s; clr := clr s; exitdr := exitdr s; g_enq := g_enq s; g_relfail := g_relfail s; g_relexit := g_relexit s; g_relclear := g_relclear s; g_leaked := g_leaked s; g_late := g_late s; w_req := w_req s; w_seen := w_seen s; returned := returned s; hup := hup s; erl := erl s; slots := v; rdy := rdy s; todo := todo s; psig := psig s; pn := pn s; wkn := wkn s; g_relclose := g_relclose s; inp := inp s; peof := peof s; rdh := rdh s; tmn := tmn s; cbk := cbk s; cbs := cbs s; lfreed := lfreed s; g_uaf := g_uaf s; thr := thr s |}.
+Definition set_rdy (s : sys) (v : list nat) : sys :=
+  {| cnt := cnt s; edge := edge s; to_exit := to_exit s; tidf := tidf s; created := created s; mtx := mtx s; queue := queue s; next_id := next_id s; reg := reg s; clr := clr s; exitdr := exitdr s; g_enq := g_enq s; g_relfail := g_relfail s; g_relexit := g_relexit s; g_relclear := g_relclear s; g_leaked := g_leaked s; g_late := g_late s; w_req := w_req s; w_seen := w_seen s; returned := returned s; hup := hup s; erl := erl s; slots := slots s; rdy := v; todo := todo s; psig := psig s; pn := pn s; wkn := wkn s; g_relclose := g_relclose s; inp := inp s; peof := peof s; rdh := rdh s; tmn := tmn s; cbk := cbk s; cbs := cbs s; lfreed := lfreed s; g_uaf := g_uaf s; thr := thr s |}.
+Definition set_todo (s : sys) (v : list (option nat)) : sys :=
+  {| cnt := cnt s; edge := edge s; to_exit := to_exit s; tidf := tidf s; created := created s; mtx := mtx s; queue := queue s; next_id := next_id s; reg := reg s; clr := clr s; exitdr := exitdr s; g_enq := g_enq s; g_relfail := g_relfail s; g_relexit := g_relexit s; g_relclear := g_relclear s; g_leaked := g_leaked s; g_late := g_late s; w_req := w_req s; w_seen := w_seen s; returned := returned s; hup := hup s; erl := erl s; slots := slots s; rdy := rdy s; todo := v; psig := psig s; pn := pn s; wkn := wkn s; g_relclose := g_relclose s; inp := inp s; peof := peof s; rdh := rdh s; tmn := tmn s; cbk := cbk s; cbs := cbs s; lfreed := lfreed s; g_uaf := g_uaf s; thr := thr s |}.
+Definition set_psig (s : sys) (v : bool) : sys :=
+  {| cnt := cnt s; edge := edge s; to_exit := to_exit s; tidf := tidf s; created := created s; mtx := mtx s; queue := queue s; next_id := next_id s; reg := reg s; clr := clr s; exitdr := exitdr s; g_enq := g_enq s; g_relfail := g_relfail s; g_relexit := g_relexit s; g_relclear := g_relclear s; g_leaked := g_leaked s; g_late := g_late s; w_req := w_req s; w_seen := w_seen s; returned := returned s; hup := hup s; erl := erl s; slots := slots s; rdy := rdy s; todo := todo s; psig := v; pn := pn s; wkn := wkn s; g_relclose := g_relclose s; inp := inp s; peof := peof s; rdh := rdh s; tmn := tmn s; cbk := cbk s; cbs := cbs s; lfreed := lfreed s; g_uaf := g_uaf s; thr := thr s |}.
+Definition set_pn (s : sys) (v : nat) : sys :=
+  {| cnt := cnt s; edge := edge s; to_exit := to_exit s; tidf := tidf s; created := created s; mtx := mtx s; queue := queue s; next_id := next_id s; reg := reg s; clr := clr s; exitdr := exitdr s; g_enq := g_enq s; g_relfail := g_relfail s; g_relexit := g_relexit s; g_relclear := g_relclear s; g_leaked := g_leaked s; g_late := g_late s; w_req := w_req s; w_seen := w_seen s; returned := returned s; hup := hup s; erl := erl s; slots := slots s; rdy := rdy s; todo := todo s; psig := psig s; pn := v; wkn := wkn s; g_relclose := g_relclose s; inp := inp s; peof := peof s; rdh := rdh s; tmn := tmn s; cbk := cbk s; cbs := cbs s; lfreed := lfreed s; g_uaf := g_uaf s; thr := thr s |}.
+Definition set_wkn (s : sys) (v : nat) : sys :=
+  {| cnt := cnt s; edge := edge s; to_exit := to_exit s; tidf := tidf s; created := created s; mtx := mtx s; queue := queue s; next_id := next_id s; reg := reg s; clr := clr s; exitdr := exitdr s; g_enq := g_enq s; g_relfail := g_relfail s; g_relexit := g_relexit s; g_relclear := g_relclear s; g_leaked := g_leaked s; g_late := g_late s; w_req := w_req s; w_seen := w_seen s; returned := returned s; hup := hup s; erl := erl s; slots := slots s; rdy := rdy s; todo := todo s; psig := psig s; pn := pn s; wkn := v; g_relclose := g_relclose s; inp := inp s; peof := peof s; rdh := rdh s; tmn := tmn s; cbk := cbk s; cbs := cbs s; lfreed := lfreed s; g_uaf := g_uaf s; thr := thr s |}.
+Definition set_g_relclose (s : sys) (v : list nat) : sys :=
+  {| cnt := cnt s; edge := edge s; to_exit := to_exit s; tidf := tidf s; created := created s; mtx := mtx s; queue := queue s; next_id := next_id s; reg := reg s; clr := clr s; exitdr := exitdr s; g_enq := g_enq s; g_relfail := g_relfail s; g_relexit := g_relexit s; g_relclear := g_relclear s; g_leaked := g_leaked s; g_late := g_late s; w_req := w_req s; w_seen := w_seen s; returned := returned s; hup := hup s; erl := erl s; slots := slots s; rdy := rdy s; todo := todo s; psig := psig s; pn := pn s; wkn := wkn s; g_relclose := v; inp := inp s; peof := peof s; rdh := rdh s; tmn := tmn s; cbk := cbk s; cbs := cbs s; lfreed := lfreed s; g_uaf := g_uaf s; thr := thr s |}.
+Definition set_inp (s : sys) (v : list nat) : sys :=
+  {| cnt := cnt s; edge := edge s; to_exit := to_exit s; tidf := tidf s; created := created s; mtx := mtx s; queue := queue s; next_id := next_id s; reg := reg s; clr := clr s; exitdr := exitdr s; g_enq := g_enq s; g_relfail := g_relfail s; g_relexit := g_relexit s; g_relclear := g_relclear s; g_leaked := g_leaked s; g_late := g_late s; w_req := w_req s; w_seen := w_seen s; returned := returned s; hup := hup s; erl := erl s; slots := slots s; rdy := rdy s; todo := todo s; psig := psig s; pn := pn s; wkn := wkn s; g_relclose := g_relclose s; inp := v; peof := peof s; rdh := rdh s; tmn := tmn s; cbk := cbk s; cbs := cbs s; lfreed := lfreed s; g_uaf := g_uaf s; thr := thr s |}.
+Definition set_peof (s : sys) (v : list nat) : sys :=
+  {| cnt := cnt s; edge := edge s; to_exit := to_exit s; tidf := tidf s; created := created s; mtx := mtx s; queue := queue s; next_id := next_id s; reg := reg s; clr := clr s; exitdr := exitdr s; g_enq := g_enq s; g_relfail := g_relfail s; g_relexit := g_relexit s; g_relclear := g_relclear s; g_leaked := g_leaked s; g_late := g_late s; w_req := w_req s; w_seen := w_seen s; returned := returned s; hup := hup s; erl := erl s; slots := slots s; rdy := rdy s; todo := todo s; psig := psig s; pn := pn s; wkn := wkn s; g_relclose := g_relclose s; inp := inp s; peof := v; rdh := rdh s; tmn := tmn s; cbk := cbk s; cbs := cbs s; lfreed := lfreed s; g_uaf := g_uaf s; thr := thr s |}.
+Definition set_rdh (s : sys) (v : list nat) : sys :=
+  {| cnt := cnt s; edge := edge s; to_exit := to_exit s; tidf := tidf s; created := created s; mtx := mtx s; queue := queue s; next_id := next_id s; reg := reg s; clr := clr s; exitdr := exitdr s; g_enq := g_enq s; g_relfail := g_relfail s; g_relexit := g_relexit s; g_relclear := g_relclear s; g_leaked := g_leaked s; g_late := g_late s; w_req := w_req s; w_seen := w_seen s; returned := returned s; hup := hup s; erl := erl s; slots := slots s; rdy := rdy s; todo := todo s; psig := psig s; pn := pn s; wkn := wkn s; g_relclose := g_relclose s; inp := inp s; peof := peof s; rdh := v; tmn := tmn s; cbk := cbk s; cbs := cbs s; lfreed := lfreed s; g_uaf := g_uaf s; thr := thr s |}.
+Definition set_tmn (s : sys) (v : nat) : sys :=
+  {| cnt := cnt s; edge := edge s; to_exit := to_exit s; tidf := tidf s; created := created s; mtx := mtx s; queue := queue s; next_id := next_id s; reg := reg s; clr := clr s; exitdr := exitdr s; g_enq := g_enq s; g_relfail := g_relfail s; g_relexit := g_relexit s; g_relclear := g_relclear s; g_leaked := g_leaked s; g_late := g_late s; w_req := w_req s; w_seen := w_seen s; returned := returned s; hup := hup s; erl := erl s; slots := slots s; rdy := rdy s; todo := todo s; psig := psig s; pn := pn s; wkn := wkn s; g_relclose := g_relclose s; inp := inp s; peof := peof s; rdh := rdh s; tmn := v; cbk := cbk s; cbs := cbs s; lfreed := lfreed s; g_uaf := g_uaf s; thr := thr s |}.
+Definition set_cbk (s : sys) (v : bool) : sys :=
+  {| cnt := cnt s; edge := edge s; to_exit := to_exit s; tidf := tidf s; created := created s; mtx := mtx s; queue := queue s; next_id := next_id s; reg := reg s; clr := clr s; exitdr := exitdr s; g_enq := g_enq s; g_relfail := g_relfail s; g_relexit := g_relexit s; g_relclear := g_relclear s; g_leaked := g_leaked s; g_late := g_late s; w_req := w_req s; w_seen := w_seen s; returned := returned s; hup := hup s; erl := erl s; slots := slots s; rdy := rdy s; todo := todo s; psig := psig s; pn := pn s; wkn := wkn s; g_relclose := g_relclose s; inp := inp s; peof := peof s; rdh := rdh s; tmn := tmn s; cbk := v; cbs := cbs s; lfreed := lfreed s; g_uaf := g_uaf s; thr := thr s |}.
+Definition set_cbs (s : sys) (v : list sop) : sys :=
+  {| cnt := cnt s; edge := edge s; to_exit := to_exit s; tidf := tidf s; created := created s; mtx := mtx s; queue := queue s; next_id := next_id s; reg := reg s; clr := clr s; exitdr := exitdr s; g_enq := g_enq s; g_relfail := g_relfail s; g_relexit := g_relexit s; g_relclear := g_relclear s; g_leaked := g_leaked s; g_late := g_late s; w_req := w_req s; w_seen := w_seen s; returned := returned s; hup := hup s; erl := erl s; slots := slots s; rdy := rdy s; todo := todo s; psig := psig s; pn := pn s; wkn := wkn s; g_relclose := g_relclose s; inp := inp s; peof := peof s; rdh := rdh s; tmn := tmn s; cbk := cbk s; cbs := v; lfreed := lfreed s; g_uaf := g_uaf s; thr := thr s |}.
+Definition set_lfreed (s : sys) (v : bool) : sys :=
+  {| cnt := cnt s; edge := edge s; to_exit := to_exit s; tidf := tidf s; created := created s; mtx := mtx s; queue := queue s; next_id := next_id s; reg := reg s; clr := clr s; exitdr := exitdr s; g_enq := g_enq s; g_relfail := g_relfail s; g_relexit := g_relexit s; g_relclear := g_relclear s; g_leaked := g_leaked s; g_late := g_late s; w_req := w_req s; w_seen := w_seen s; returned := returned s; hup := hup s; erl := erl s; slots := slots s; rdy := rdy s; todo := todo s; psig := psig s; pn := pn s; wkn := wkn s; g_relclose := g_relclose s; inp := inp s; peof := peof s; rdh := rdh s; tmn := tmn s; cbk := cbk s; cbs := cbs s; lfreed := v; g_uaf := g_uaf s; thr := thr s |}.
+Definition set_g_uaf (s : sys) (v : nat) : sys :=
+  {| cnt := cnt s; edge := edge s; to_exit := to_exit s; tidf := tidf s; created := created s; mtx := mtx s; queue := queue s; next_id := next_id s; reg := reg s; clr := clr s; exitdr := exitdr s; g_enq := g_enq s; g_relfail := g_relfail s; g_relexit := g_relexit s; g_relclear := g_relclear s; g_leaked := g_leaked s; g_late := g_late s; w_req := w_req s; w_seen := w_seen s; returned := returned s; hup := hup s; erl := erl s; slots := slots s; rdy := rdy s; todo := todo s; psig := psig s; pn := pn s; wkn := wkn s; g_relclose := g_relclose s; inp := inp s; peof := peof s; rdh := rdh s; tmn := tmn s; cbk := cbk s; cbs := cbs s; lfreed := lfreed s; g_uaf := v; thr := thr s |}.
 Definition set_thr (s : sys) (v : nat -> pc) : sys :=
-  {| cnt := cnt s; edge := edge s; to_exit := to_exit s; tidf := tidf s; created := created s; mtx := mtx s; queue := queue s; next_id := next_id s; reg := reg s; clr := clr s; exitdr := exitdr s; g_enq := g_enq s; g_relfail := g_relfail s; g_relexit := g_relexit s; g_relclear := g_relclear s; g_leaked := g_leaked s; g_late := g_late s; w_req := w_req s; w_seen := w_seen s; returned := returned s; thr := v |}.
+  {| cnt := cnt s; edge := edge s; to_exit := to_exit s; tidf := tidf s; created := created s; mtx := mtx s; queue := queue s; next_id := next_id s; reg := reg s; clr := clr s; exitdr := exitdr s; g_enq := g_enq s; g_relfail := g_relfail s; g_relexit := g_relexit s; g_relclear := g_relclear s; g_leaked := g_leaked s; g_late := g_late s; w_req := w_req s; w_seen := w_seen s; returned := returned s; hup := hup s; erl := erl s; slots := slots s; rdy := rdy s; todo := todo s; psig := psig s; pn := pn s; wkn := wkn s; g_relclose := g_relclose s; inp := inp s; peof := peof s; rdh := rdh s; tmn := tmn s; cbk := cbk s; cbs := cbs s; lfreed := lfreed s; g_uaf := g_uaf s; thr := v |}.
 
 Definition set_pc (s : sys) (t : nat) (p : pc) : sys := set_thr s (upd (thr s) t p).
 
@@ -169,7 +276,9 @@ Definition init : sys :=
   {| cnt := 0; edge := false; to_exit := 0; tidf := 0; created := false; mtx := None; queue := [];
      next_id := 0; reg := []; clr := []; exitdr := false; g_enq := []; g_relfail := [];
      g_relexit := []; g_relclear := []; g_leaked := []; g_late := []; w_req := 0; w_seen := 0;
-     returned := false; thr := fun _ => SStart |}.
+     returned := false; hup := []; erl := []; slots := []; rdy := []; todo := []; psig := false;
+     pn := 0; wkn := 0; g_relclose := []; inp := []; peof := []; rdh := []; tmn := 0; cbk := false;
+     cbs := []; lfreed := false; g_uaf := 0; thr := fun _ => SStart |}.
 
 (* exit status values of event_loop.h *)
 Definition ST_EXIT : nat := 1.
@@ -196,15 +305,26 @@ Definition n_wake : nat := 10.
 Definition n_returned : nat := 11.
 Definition n_clear : nat := 12.     (* bare loop: cb_clear of a registered context *)
 Definition n_exitcb : nat := 13.    (* bare loop: cb_exit *)
+Definition n_ops : nat := 14.       (* operation s: the context shut down, -1 = none *)
+Definition n_opd : nat := 15.       (* operation d: the context whose peer sends data, -1 = none *)
+Definition n_msg : nat := 16.       (* cb_msg *)
+Definition n_close : nat := 17.     (* cb_close *)
+Definition n_opc : nat := 18.       (* operation c: the context whose peer closes, -1 = none *)
+Definition n_timer : nat := 19.     (* cb_timer *)
 
 Definition zn (n : nat) : Z := Z.of_nat n.
 Definition ev_yield := LEv (Ev OPlain cell_op MoNone 0 0 0).
 Definition ev_write := LEv (Ev OFadd cell_efd MoNone 1 1 0).
 Definition ev_read (v : nat) := LEv (Ev OXchg cell_efd MoNone (zn v) (if Nat.ltb 0 v then 1 else 0) 0).
-Definition ev_poll (r : bool) := LEv (Ev OLoad cell_sig MoNone (if r then 1 else 0) (if r then 1 else 0) 0).
+(* one select / poll / epoll_wait attempt: signal reported?, number of descriptors reported *)
+Definition ev_poll (sg : bool) (n : nat) := LEv (Ev OLoad cell_sig MoNone (if sg then 1 else 0) (zn n) 0).
 Definition ev_mlock := LEv (Ev OMlock cell_hmtx MoNone 0 0 0).
 Definition ev_munlock := LEv (Ev OMunlock cell_hmtx MoNone 0 0 0).
 Definition ev_rel (id : nat) := LEv (Ev OCasS (cell_ref id) Rlx 1 0 1).
+
+Definition memb (x : nat) (l : list nat) : bool := existsb (Nat.eqb x) l.
+Definition add_uniq (id : nat) (l : list nat) : list nat := if memb id l then l else l ++ [id].
+Definition is_nil {A} (l : list A) : bool := match l with [] => true | _ => false end.
 
 (* is the signal reported by the next select / poll / epoll_wait ? *)
 Definition ready (C : config) (s : sys) : bool :=
@@ -212,6 +332,42 @@ Definition ready (C : config) (s : sys) : bool :=
   | BEpoll => edge s && Nat.ltb 0 (cnt s)
   | _ => Nat.ltb 0 (cnt s)
   end.
+
+(* the registered contexts reported by the next select / poll / epoll_wait (epoll: those on the
+   ready list that are still readable; every epoll_wait call empties the list) *)
+Definition lvl_ready (s : sys) (id : nat) : bool := memb id (hup s) || memb id (inp s) || memb id (peof s).
+Definition crdy (C : config) (s : sys) : list nat :=
+  match c_be C with
+  | BEpoll => filter (lvl_ready s) (erl s)
+  | _ => filter (lvl_ready s) (reg s)
+  end.
+
+(* the first context in ctx_list that is not flagged CLOSED and has not been freed by the clear
+   pass (shutdown) / and whose peer has not closed (data from, close by the peer) *)
+Definition shut_target (s : sys) : option nat :=
+  find (fun id => negb (memb id (hup s)) && negb (memb id (g_relclear s))) (reg s).
+Definition peer_target (s : sys) : option nat :=
+  find (fun id => negb (memb id (hup s)) && negb (memb id (peof s)) && negb (memb id (g_relclear s))) (reg s).
+
+(* removal of a context from ctx_list / from the poll back-end's arrays (the hole is filled with
+   the last entry) *)
+Definition drop (id : nat) (l : list nat) : list nat := filter (fun x => negb (Nat.eqb x id)) l.
+Definition swap_remove (id : nat) (l : list nat) : list nat :=
+  match rev l with
+  | [] => []
+  | last :: ri =>
+    if Nat.eqb last id then rev ri
+    else map (fun x => if Nat.eqb x id then last else x) (rev ri)
+  end.
+Definition close_ctx (s : sys) (id : nat) : sys :=
+  set_g_relclose (set_peof (set_inp (set_slots (set_erl (set_hup (set_reg s (drop id (reg s))) (drop id (hup s)))
+    (drop id (erl s))) (swap_remove id (slots s))) (drop id (inp s))) (drop id (peof s))) (g_relclose s ++ [id]).
+
+(* the signal at position [ch] among the context events of one epoll_wait batch *)
+Definition ins_sig (ch : nat) (l : list (option nat)) : list (option nat) := firstn ch l ++ None :: skipn ch l.
+
+(* a library call on the loop object: counted when the loop has been deleted *)
+Definition touch (s : sys) : sys := set_g_uaf s (if lfreed s then S (g_uaf s) else g_uaf s).
 
 (* muggle_evloop_add_ctx fails: poll back-end with nfd = capacity (capacity = hints_max_fd + 1,
    slot 0 is the signal).  Other failure causes (fcntl, epoll_ctl, node allocation) do not
@@ -246,13 +402,16 @@ Definition bare_exit_notes (C : config) : list (nat * Z) :=
   (if c_cb_clear C then map (fun i => (n_clear, zn i)) (seq 0 (c_nctx C)) else []) ++
   (if c_cb_exit C then [(n_exitcb, 0%Z)] else []) ++ [(n_returned, 0%Z)].
 
-(* on_wake's loop over the queue, from the current position to the next scheduling point *)
+(* on_wake's loop over the queue, from the current position to the next scheduling point; the
+   contexts that register are appended to ctx_list and to the poll back-end's arrays *)
 Definition seg_drain (C : config) (s1 : sys) (t : nat) (n0 : list (nat * Z)) : option (sys * label) :=
   match drain C (queue s1) (reg s1) (g_leaked s1) n0 with
   | (q, rg, lk, notes, Some id) =>
-    Some (set_pc (set_g_leaked (set_reg (set_queue s1 q) rg) lk) t (ARel PhDrain id), LPlain notes)
+    Some (set_pc (set_slots (set_g_leaked (set_reg (set_queue s1 q) rg) lk)
+                            (slots s1 ++ skipn (length (reg s1)) rg)) t (ARel PhDrain id), LPlain notes)
   | (q, rg, lk, notes, None) =>
-    Some (set_pc (set_g_leaked (set_reg (set_queue s1 q) rg) lk) t AWUnlock, LPlain notes)
+    Some (set_pc (set_slots (set_g_leaked (set_reg (set_queue s1 q) rg) lk)
+                            (slots s1 ++ skipn (length (reg s1)) rg)) t AWUnlock, LPlain notes)
   end.
 (* muggle_evloop_run's walk over ctx_list calling cb_clear; then cb_exit *)
 Definition seg_clear (s1 : sys) (t : nat) (n0 : list (nat * Z)) : option (sys * label) :=
@@ -267,6 +426,142 @@ Definition seg_exit (s1 : sys) (t : nat) (n0 : list (nat * Z)) : option (sys * l
   | [] => Some (set_pc s1 t AXUnlock, LPlain n0)
   end.
 
+(* the poll back-end leaves its for loop as soon as n <= 0 *)
+Definition poll_done (C : config) (n : nat) : bool :=
+  match c_be C with BPoll => Nat.eqb n 0 | _ => false end.
+
+(* the back-end's pass over what the poll call reported, up to the next scheduling point, as a
+   function of the flags ([hp]), of the peers that have closed ([pe]), of what was reported ([rd],
+   [rh] = hung up, [sg]), of the poll back-end's counter and of what is still to visit.
+   A context: if its descriptor was reported, cb_read = on_read (the user's cb_msg when installed,
+   the handle's own read loop otherwise: the input is consumed; at end of file the read sets the
+   flag CLOSED) and, poll back-end, n decremented for POLLIN and again for POLLHUP; then if its
+   flags have CLOSED: cb_close = on_close (the user's cb_close when installed, then the release:
+   the ref-count CAS is the next operation).  The signal: handle_wakeup when it was reported.
+   Result: the counter, what remains to visit, where the segment ends, the notes, the contexts
+   whose input has been consumed. *)
+Inductive pres := PRead | PClose (id : nat) | PEnd.
+Fixpoint pass (C : config) (hp pe rd rh : list nat) (sg : bool) (n : nat) (td : list (option nat))
+  (notes : list (nat * Z)) (dr : list nat) : nat * list (option nat) * pres * list (nat * Z) * list nat :=
+  match td with
+  | [] => (n, [], PEnd, notes, dr)
+  | None :: r => if sg then (n, r, PRead, notes, dr) else pass C hp pe rd rh sg n r notes dr
+  | Some id :: r =>
+    let inr := memb id rd in
+    let n1 := notes ++ (if inr && c_cb_read C then [(n_msg, zn id)] else []) in
+    let m := (if inr then n - 1 else n) - (if memb id rh then 1 else 0) in
+    let dr1 := if inr then dr ++ [id] else dr in
+    if memb id hp || (inr && memb id pe) then
+      (m, r, PClose id, n1 ++ (if c_cb_close C then [(n_close, zn id)] else []), dr1)
+    else if poll_done C m then (m, [], PEnd, n1, dr1)
+    else pass C hp pe rd rh sg m r n1 dr1
+  end.
+
+(* the back-end's exit test: if (to_exit == EXIT) break; after the break muggle_evloop_run walks
+   ctx_list calling cb_clear = on_clear, which releases every context that is still in the list
+   whatever its flags (a bare loop: the installed clear and exit callbacks, then the return, all in
+   this segment) *)
+Definition exit_test (C : config) (s : sys) (t : nat) (ns : list (nat * Z)) : option (sys * label) :=
+  if Nat.eqb (to_exit s) ST_EXIT then
+    if c_bare C then
+      Some (set_pc (set_lfreed (set_returned (set_exitdr s true) true) (c_del C)) t AFin, LPlain (ns ++ bare_exit_notes C))
+    else
+      match reg s with
+      | id :: r => Some (set_pc (set_clr s r) t (ARel PhClear id), LPlain ns)
+      | [] => Some (set_pc s t AXLock, LPlain ns)
+      end
+  else Some (set_pc s t APoll, LPlain ns).
+
+(* the end of an iteration of the back-end's loop: with a timer interval of 0 the timer callback
+   (the user's, when installed; its script when it has one: the first "plain op" of the script
+   ends the segment), then the exit test *)
+Definition fin_pass (C : config) (s : sys) (t : nat) (ns : list (nat * Z)) : option (sys * label) :=
+  if c_tmo C && c_cb_timer C then
+    let s1 := set_cbs (set_cbk (set_tmn s (S (tmn s))) true) (if c_bare C then [] else nth (tmn s) (c_cbt C) []) in
+    if is_nil (cbs s1) then exit_test C s1 t (ns ++ [(n_timer, 0%Z)])
+    else Some (set_pc s1 t (Cb (QY 0)), LPlain (ns ++ [(n_timer, 0%Z)]))
+  else exit_test C s t ns.
+
+Definition seg_pass (C : config) (s : sys) (t : nat) (n0 : list (nat * Z)) : option (sys * label) :=
+  match pass C (hup s) (peof s) (rdy s) (rdh s) (psig s) (pn s) (todo s) n0 [] with
+  | (n, td, PRead, ns, dr) =>
+    Some (set_pc (set_psig (set_inp (set_todo (set_pn s n) td) (filter (fun x => negb (memb x dr)) (inp s))) false) t ARead,
+          LPlain ns)
+  | (n, td, PClose id, ns, dr) =>
+    Some (set_pc (set_hup (set_inp (set_todo (set_pn s n) td) (filter (fun x => negb (memb x dr)) (inp s)))
+                          (add_uniq id (hup s))) t (ARel PhClose id), LPlain ns)
+  | (n, td, PEnd, ns, dr) =>
+    fin_pass C (set_inp (set_todo (set_pn s n) td) (filter (fun x => negb (memb x dr)) (inp s))) t ns
+  end.
+
+(* the end of the user's wake callback: back in handle_wakeup: if (to_exit == WAKE) to_exit = EXIT;
+   then the rest of the back-end's pass (select: the walk over ctx_list, which tests the flags of
+   every context; epoll: the remaining events of the batch; poll: the signal was the last slot) *)
+Definition wake_end (C : config) (s : sys) (t : nat) (ns : list (nat * Z)) : option (sys * label) :=
+  let s1 := set_to_exit s (if Nat.eqb (to_exit s) ST_WAKE then ST_EXIT else to_exit s) in
+  let s2 := set_todo s1 (match c_be C with BSelect => map Some (reg s) | _ => todo s end) in
+  seg_pass C s2 t ns.
+
+(* the end of a callback script *)
+Definition cb_end (C : config) (s : sys) (t : nat) (ns : list (nat * Z)) : option (sys * label) :=
+  if cbk s then exit_test C s t ns else wake_end C s t ns.
+Definition cb_next (C : config) (s : sys) (t k : nat) (ns : list (nat * Z)) : option (sys * label) :=
+  if Nat.ltb (S k) (length (cbs s)) then Some (set_pc s t (Cb (QY (S k))), LPlain ns) else cb_end C s t ns.
+
+(* what one select / poll / epoll_wait call that reported something leaves for the pass *)
+Definition pass_plan (C : config) (s : sys) (sg : bool) (cr : list nat) (ch : nat) : list (option nat) :=
+  match c_be C with
+  | BSelect => if sg then [None] else map Some (reg s)
+  | BPoll => map Some (rev (slots s)) ++ [None]
+  | BEpoll => if sg then ins_sig ch (map Some cr) else map Some cr
+  end.
+
+(* the first plain segment of a script operation, executed by thread t (a thread script or a
+   callback script): the state, what the operation does next, the notes *)
+Inductive onext := NWrite | NHLock (id : nat) | NDone.
+Definition op_begin (C : config) (s : sys) (t k : nat) (op : sop) : sys * onext * list (nat * Z) :=
+  match op with
+  | OpW => (touch s, NWrite, [(n_opw, zn k)])
+  | OpH =>
+    (* without a handle there is no hand-over queue: the drivers execute the operation as a
+       plain wake-up *)
+    if c_bare C then (touch s, NWrite, [(n_opw, zn k)])
+    else (set_next_id (touch s) (S (next_id s)), NHLock (next_id s), [(n_oph, zn (next_id s))])
+  | OpX =>
+    (* muggle_evloop_exit: compare evloop->tid with the caller *)
+    if Nat.eqb (tidf s) t then
+      if c_fix_exit C then (set_to_exit (touch s) ST_EXIT, NWrite, [(n_opx, zn k)])
+      else (set_to_exit (touch s) ST_EXIT, NDone, [(n_opx, zn k)])
+    else (set_to_exit (touch s) ST_WAKE, NWrite, [(n_opx, zn k)])
+  | OpS =>
+    (* without a handle there are no socket contexts: executed as a plain wake-up *)
+    if c_bare C then (touch s, NWrite, [(n_opw, zn k)]) else
+    match shut_target s with
+    | Some id => (set_erl (set_hup s (hup s ++ [id])) (add_uniq id (erl s)), NDone, [(n_ops, zn id)])
+    | None => (s, NDone, [(n_ops, (-1)%Z)])
+    end
+  | OpD =>
+    if c_bare C then (touch s, NWrite, [(n_opw, zn k)]) else
+    match peer_target s with
+    | Some id => (set_erl (set_inp s (add_uniq id (inp s))) (add_uniq id (erl s)), NDone, [(n_opd, zn id)])
+    | None => (s, NDone, [(n_opd, (-1)%Z)])
+    end
+  | OpC =>
+    if c_bare C then (touch s, NWrite, [(n_opw, zn k)]) else
+    match peer_target s with
+    | Some id => (set_erl (set_peof s (peof s ++ [id])) (add_uniq id (erl s)), NDone, [(n_opc, zn id)])
+    | None => (s, NDone, [(n_opc, (-1)%Z)])
+    end
+  end.
+
+(* muggle_ev_signal_wakeup's write *)
+Definition sig_write (s : sys) : sys :=
+  set_w_req (set_edge (set_cnt (touch s) (S (cnt s))) true) (S (w_req s)).
+(* muggle_socket_evloop_add_ctx's enqueue *)
+Definition enqueue (s : sys) (id : nat) : sys :=
+  set_g_late (set_g_enq (set_queue (touch s) (queue s ++ [id])) (g_enq s ++ [id]))
+             (if exitdr s then g_late s ++ [id] else g_late s).
+
 Definition step (C : config) (s : sys) (t ch : nat) : option (sys * label) :=
   if negb (Nat.ltb t (c_n C)) then None else
   if negb (Nat.eqb t 0 || created s) then None else
@@ -278,55 +573,47 @@ Definition step (C : config) (s : sys) (t ch : nat) : option (sys * label) :=
   | AYield k => Some (go (SOp k), ev_yield)
   | SOp k =>
     match nth_error (c_scr C t) k with
-    | Some OpW => Some (go (AWrite k), LPlain [(n_opw, zn k)])
-    | Some OpH =>
-      (* without a handle there is no hand-over queue: the drivers execute the operation as a
-         plain wake-up *)
-      if c_bare C then Some (go (AWrite k), LPlain [(n_opw, zn k)]) else
-      let id := next_id s in
-      Some (set_pc (set_next_id s (S id)) t (AHLock k id), LPlain [(n_oph, zn id)])
-    | Some OpX =>
-      (* muggle_evloop_exit: compare evloop->tid with the caller *)
-      if Nat.eqb (tidf s) t then
-        if c_fix_exit C then Some (set_pc (set_to_exit s ST_EXIT) t (AWrite k), LPlain [(n_opx, zn k)])
-        else Some (set_pc (set_to_exit s ST_EXIT) t (AYield (S k)), LPlain [(n_opx, zn k); (n_done, zn k)])
-      else Some (set_pc (set_to_exit s ST_WAKE) t (AWrite k), LPlain [(n_opx, zn k)])
+    | Some op =>
+      match op_begin C s t k op with
+      | (s1, NWrite, ns) => Some (set_pc s1 t (AWrite k), LPlain ns)
+      | (s1, NHLock id, ns) => Some (set_pc s1 t (AHLock k id), LPlain ns)
+      | (s1, NDone, ns) => Some (set_pc s1 t (AYield (S k)), LPlain (ns ++ [(n_done, zn k)]))
+      end
     | None =>
       if Nat.eqb t (c_loop C) then
         (* muggle_evloop_run: evloop->tid = self; epoll: EPOLL_CTL_ADD of the signal *)
         Some (set_pc (set_edge (set_tidf s t) (Nat.ltb 0 (cnt s))) t APoll, LPlain [])
       else Some (go AFin, LPlain [])
     end
-  | AWrite k =>
-    Some (set_pc (set_w_req (set_edge (set_cnt s (S (cnt s))) true) (S (w_req s))) t (STail k), ev_write)
+  | AWrite k => Some (set_pc (sig_write s) t (STail k), ev_write)
   | STail k => Some (go (AYield (S k)), LPlain [(n_done, zn k)])
   | AHLock k id =>
     match mtx s with
-    | None => Some (set_pc (set_mtx s (Some t)) t (SHEnq k id), ev_mlock)
+    | None => Some (set_pc (set_mtx (touch s) (Some t)) t (SHEnq k id), ev_mlock)
     | Some _ => None
     end
-  | SHEnq k id =>
-    let s1 := set_g_enq (set_queue s (queue s ++ [id])) (g_enq s ++ [id]) in
-    let s2 := set_g_late s1 (if exitdr s then g_late s ++ [id] else g_late s) in
-    Some (set_pc s2 t (AHUnlock k), LPlain [])
-  | AHUnlock k => Some (set_pc (set_mtx s None) t (SHW k), ev_munlock)
-  | SHW k => Some (go (AWrite k), LPlain [])
+  | SHEnq k id => Some (set_pc (enqueue s id) t (AHUnlock k), LPlain [])
+  | AHUnlock k => Some (set_pc (set_mtx (touch s) None) t (SHW k), ev_munlock)
+  | SHW k => Some (set_pc (touch s) t (AWrite k), LPlain [])
   | APoll =>
-    if ready C s then Some (set_pc (set_edge s false) t SPollRet, ev_poll true)
-    else Some (go SRepoll, ev_poll false)
-  | SRepoll => Some (go APoll, LPlain [])
-  | SPollRet => Some (go ARead, LPlain [])
+    let sg := ready C s in
+    let cr := crdy C s in
+    if sg || negb (is_nil cr) then
+      let s1 := set_todo (set_pn (set_psig (set_rdh (set_rdy (set_erl (set_edge s (if sg then false else edge s)) []) cr)
+                                                     (filter (fun id => memb id (hup s) || memb id (peof s)) cr)) sg)
+                                 (length cr + (if sg then 1 else 0))) (pass_plan C s sg cr ch) in
+      Some (set_pc s1 t SPollRet, ev_poll sg (length cr + (if sg then 1 else 0)))
+    else Some (set_pc (set_erl s []) t SRepoll, ev_poll false 0)
+  | SRepoll => if c_tmo C then fin_pass C s t [] else Some (go APoll, LPlain [])
+  | SPollRet => seg_pass C s t []
   | ARead => Some (set_pc (set_cnt s 0) t SWake, ev_read (cnt s))
   | SWake =>
     if c_bare C then
-      (* bare loop: cb_wake (when installed); if (to_exit == WAKE) to_exit = EXIT; exit test;
-         after the break the clear callbacks, the exit callback and the return - no scheduling
-         point in between *)
-      let te := if Nat.eqb (to_exit s) ST_WAKE then ST_EXIT else to_exit s in
-      let s1 := set_to_exit (set_w_seen s (w_req s)) te in
-      if Nat.eqb te ST_EXIT then
-        Some (set_pc (set_returned (set_exitdr s1 true) true) t AFin, LPlain (wake_notes C ++ bare_exit_notes C))
-      else Some (set_pc s1 t APoll, LPlain (wake_notes C))
+      (* bare loop: cb_wake (when installed); if (to_exit == WAKE) to_exit = EXIT; timer; exit
+         test; after the break the clear callbacks, the exit callback and the return - no
+         scheduling point in between *)
+      fin_pass C (set_to_exit (set_w_seen s (w_req s)) (if Nat.eqb (to_exit s) ST_WAKE then ST_EXIT else to_exit s))
+               t (wake_notes C)
     else Some (set_pc (set_w_seen s (w_req s)) t AWLock, LPlain [])
   | AWLock =>
     match mtx s with
@@ -340,16 +627,39 @@ Definition step (C : config) (s : sys) (t ch : nat) : option (sys * label) :=
   | ARel ph id => Some (go (SRel ph (Some id)), ev_rel id)
   | AWUnlock => Some (set_pc (set_mtx s None) t SWakeEnd, ev_munlock)
   | SWakeEnd =>
-    (* handle->cb_wake; if (to_exit == WAKE) to_exit = EXIT; ... if (to_exit == EXIT) break;
-       after the break muggle_evloop_run walks ctx_list calling cb_clear *)
-    let te := if Nat.eqb (to_exit s) ST_WAKE then ST_EXIT else to_exit s in
-    let s1 := set_to_exit s te in
-    if Nat.eqb te ST_EXIT then
-      match reg s with
-      | id :: r => Some (set_pc (set_clr s1 r) t (ARel PhClear id), LPlain (wake_notes C))
-      | [] => Some (set_pc s1 t AXLock, LPlain (wake_notes C))
+    (* the user's wake callback (its script: the first "plain op" ends the segment), then the
+       rest of handle_wakeup and of the pass *)
+    if c_cb_wake C then
+      let s1 := set_cbs (set_cbk (set_wkn s (S (wkn s))) false) (nth (wkn s) (c_cbw C) []) in
+      if is_nil (cbs s1) then wake_end C s1 t (wake_notes C)
+      else Some (set_pc s1 t (Cb (QY 0)), LPlain (wake_notes C))
+    else wake_end C s t []
+  | Cb (QY k) => Some (go (Cb (QO k)), ev_yield)
+  | Cb (QO k) =>
+    match nth_error (cbs s) k with
+    | Some op =>
+      match op_begin C s t k op with
+      | (s1, NWrite, ns) => Some (set_pc s1 t (Cb (QW k)), LPlain ns)
+      | (s1, NHLock id, ns) => Some (set_pc s1 t (Cb (QHL k id)), LPlain ns)
+      | (s1, NDone, ns) => cb_next C s1 t k (ns ++ [(n_done, zn k)])
       end
-    else Some (set_pc s1 t APoll, LPlain (wake_notes C))
+    | None => cb_end C s t []
+    end
+  | Cb (QW k) => Some (set_pc (sig_write s) t (Cb (QT k)), ev_write)
+  | Cb (QT k) => cb_next C s t k [(n_done, zn k)]
+  | Cb (QHL k id) =>
+    match mtx s with
+    | None => Some (set_pc (set_mtx (touch s) (Some t)) t (Cb (QHE k id)), ev_mlock)
+    | Some _ => None
+    end
+  | Cb (QHE k id) => Some (set_pc (enqueue s id) t (Cb (QHU k)), LPlain [])
+  | Cb (QHU k) => Some (set_pc (set_mtx (touch s) None) t (Cb (QHW k)), ev_munlock)
+  | Cb (QHW k) => Some (set_pc (touch s) t (Cb (QW k)), LPlain [])
+  | SRel PhClose None => fin_pass C (set_todo s []) t []
+  | SRel PhClose (Some id) =>
+    (* on_close has released id: cb_release, close, free; the back-end removes it from ctx_list *)
+    if poll_done C (pn s) then fin_pass C (set_todo (close_ctx s id) []) t (rel_notes C id)
+    else seg_pass C (close_ctx s id) t (rel_notes C id)
   | SRel PhClear None => seg_clear s t []
   | SRel PhClear (Some id) => seg_clear (set_g_relclear s (g_relclear s ++ [id])) t (rel_notes C id)
   | AXLock =>
@@ -361,10 +671,11 @@ Definition step (C : config) (s : sys) (t ch : nat) : option (sys * label) :=
   | SRel PhExit (Some id) =>
     seg_exit (set_g_relexit (set_queue s (tl (queue s))) (g_relexit s ++ [id])) t (rel_notes C id)
   | AXUnlock => Some (set_pc (set_mtx s None) t SRet, ev_munlock)
-  | SRet => Some (set_pc (set_returned s true) t AFin, LPlain [(n_returned, 0%Z)])
+  | SRet => Some (set_pc (set_lfreed (set_returned s true) (c_del C)) t AFin, LPlain [(n_returned, 0%Z)])
   | AFin => Some (go Done, LExit)
   | Done => None
   end.
 
 (* summary printed by the drivers *)
-Definition freed_count (s : sys) : nat := length (g_relfail s) + length (g_relclear s) + length (g_relexit s).
+Definition freed_count (s : sys) : nat :=
+  length (g_relfail s) + length (g_relclear s) + length (g_relexit s) + length (g_relclose s).
